@@ -74,7 +74,7 @@ pub struct Ctx<'a> {
     pub m: &'a Model<'a>,
     mods: HashMap<(String, String), Vec<Modification>>,
     /// (sub, ack id) -> acknowledgements: (end_seq, inv_seq, done (seq,t) if certainly processed)
-    acks: HashMap<(String, String), Vec<(Option<u64>, u64, Option<(u64, u64)>)>>,
+    acks: HashMap<(String, String), Vec<(Option<u64>, u64, Option<(u64, u64)>, u64)>>,
     /// (sub, ack id) -> kind of a rejected request that named it, with its invoke seq
     rejected: HashMap<(String, String), Vec<(&'static str, u64)>>,
 }
@@ -91,7 +91,7 @@ pub fn canon_ack(s: &str) -> String {
 impl<'a> Ctx<'a> {
     pub fn new(plan: &'a Plan, m: &'a Model<'a>) -> Self {
         let mut mods: HashMap<(String, String), Vec<Modification>> = HashMap::new();
-        let mut acks: HashMap<(String, String), Vec<(Option<u64>, u64, Option<(u64, u64)>)>> = HashMap::new();
+        let mut acks: HashMap<(String, String), Vec<(Option<u64>, u64, Option<(u64, u64)>, u64)>> = HashMap::new();
         let mut rejected: HashMap<(String, String), Vec<(&'static str, u64)>> = HashMap::new();
         for c in m.calls.values() {
             // A request answered INVALID_ARGUMENT or NOT_FOUND was rejected: no effect in the model.
@@ -132,7 +132,7 @@ impl<'a> Ctx<'a> {
                     let done = if c.returned_ok() { Some((c.ret_seq.unwrap(), c.ret_t.unwrap())) } else { None };
                     let end_seq = if c.code().is_some() { c.ret_seq } else { None };
                     for a in ack_ids {
-                        acks.entry((sub.clone(), canon_ack(a))).or_default().push((end_seq, c.inv_seq, done));
+                        acks.entry((sub.clone(), canon_ack(a))).or_default().push((end_seq, c.inv_seq, done, c.inv_t));
                     }
                 }
                 _ => {}
@@ -167,7 +167,7 @@ impl<'a> Ctx<'a> {
                     continue;
                 }
                 for a in ack_ids {
-                    acks.entry((s.sub.clone(), canon_ack(a))).or_default().push((end_seq, *seq, done));
+                    acks.entry((s.sub.clone(), canon_ack(a))).or_default().push((end_seq, *seq, done, *t));
                 }
                 for (i, a) in modacks.iter().enumerate() {
                     let n = secs.get(i).cloned().unwrap_or(0);
@@ -284,11 +284,15 @@ impl<'a> Ctx<'a> {
                     hi = cands.iter().map(|c| c.hi).max().unwrap_or(hi);
                 }
                 if let Some(list) = self.acks.get(&key) {
-                    for (end_seq, inv_seq, done) in list {
+                    for (end_seq, inv_seq, done, inv_t) in list {
                         if end_seq.map(|e| e < d.lo_seq).unwrap_or(false) {
                             continue;
                         }
                         if *inv_seq > to_seq {
+                            continue;
+                        }
+                        if *inv_t > hi {
+                            // sent when the lease was certainly over: the ack ID is inert by then
                             continue;
                         }
                         maybe_acked = true;
@@ -525,6 +529,7 @@ pub fn evaluate(ctx: &Ctx) -> Vec<Violation> {
     rule_c15(ctx, &mut out);
     rule_c06(ctx, &mut out);
     rule_quiescent_late(ctx, &mut out);
+    rule_vanished(ctx, &mut out);
     rule_c12(ctx, &mut out);
     rule_c12_race(ctx, &mut out);
     rule_seq(ctx, &mut out);
@@ -1250,6 +1255,76 @@ fn rule_quiescent_late(ctx: &Ctx, out: &mut Vec<Violation>) {
                     also_rejected(out, &lease, &detail);
                     out.push(v(&rule, "quiescent_late", detail));
                 }
+            }
+        }
+    }
+}
+
+/// C01.conservation, key vanished_at_audit: at a quiescent audit a subscription that exists holds
+/// (in its backlog) every message that was published to its topic after it was established and
+/// has not been delivered on it yet. Counted against the backlog figure of the statistics hook.
+/// Only for subscriptions whose consumers' observations are complete (see quiescent_late), that
+/// were never deleted successfully, on a topic that was created once; publishes that overlap a
+/// DeleteTopic are left out.
+fn rule_vanished(ctx: &Ctx, out: &mut Vec<Violation>) {
+    let m = ctx.m;
+    let limit = m.drain_start.map(|d| d.0).unwrap_or(u64::MAX).min(m.health_start.map(|h| h.0).unwrap_or(u64::MAX));
+    let mut subs: BTreeSet<String> = BTreeSet::new();
+    for n in m.sub_creates.keys() {
+        subs.insert(n.clone());
+    }
+    for sub in subs {
+        let inst = match m.unique_sub(&sub) {
+            Some(i) => i,
+            None => continue,
+        };
+        if inst.push.is_some() || m.unique_topic(&inst.topic).is_none() {
+            continue;
+        }
+        // any delete that may have taken effect ends the subscription's life for this rule
+        let first_effective_delete = m.sub_deletes.get(&sub).map(|v| v.iter().filter(|c| !matches!(m.calls[*c].out, Some(Outcome::Err(_, _)))).map(|c| m.calls[c].inv_seq).min().unwrap_or(u64::MAX)).unwrap_or(u64::MAX);
+        let incomplete_pull = m.calls.values().any(|c| matches!(&c.req, Req::Pull { sub: s, .. } | Req::DrainPull { sub: s } if *s == sub) && c.inv_seq < limit && !matches!(c.out, Some(Outcome::Ok(_)) | Some(Outcome::Err(_, _))));
+        let incomplete_stream = m.streams.values().any(|st| st.sub == sub && (matches!(&st.end, Some((es, _, e)) if *es < limit && !matches!(e, StreamEnd::Status(_, _) | StreamEnd::Eof)) || !matches!(st.started, Some((_, _, _)))));
+        let cancelled_bg = m.calls.values().any(|c| matches!(&c.req, Req::Pull { sub: s, bg_slot: Some(slot), .. } if *s == sub && m.cancel_bg.contains_key(slot)));
+        if incomplete_pull || incomplete_stream || cancelled_bg {
+            continue;
+        }
+        let topic_deletes: Vec<&Call> = m.topic_deletes.get(&inst.topic).map(|v| v.iter().map(|c| &m.calls[c]).collect()).unwrap_or_default();
+        let candidates: Vec<(&Published, &Call)> = m
+            .published
+            .iter()
+            .filter(|p| p.topic == inst.topic && p.msg_id.is_some())
+            .map(|p| (p, &m.calls[&p.call]))
+            .filter(|(_, pc)| pc.returned_ok() && pc.inv_seq > inst.established_seq && !topic_deletes.iter().any(|d| d.inv_seq < pc.ret_seq_or_max() && d.effect_end_seq() > pc.inv_seq))
+            .collect();
+        if candidates.is_empty() {
+            continue;
+        }
+        for st in m.stats.iter().filter(|s| s.sub == sub && s.found && s.seq < limit && s.seq < first_effective_delete) {
+            let b = match m.barriers.iter().rev().find(|b| b.seq < st.seq) {
+                Some(b) if b.quiescent => b,
+                _ => continue,
+            };
+            // no phase boundary between the barrier and the snapshot
+            if m.barriers.iter().any(|x| x.seq > b.seq && x.seq < st.seq) {
+                continue;
+            }
+            let undelivered: Vec<&str> = candidates
+                .iter()
+                .filter(|(_, pc)| pc.ret_seq_or_max() < b.seq)
+                .filter(|(p, _)| {
+                    let id = p.msg_id.as_ref().unwrap();
+                    !m.deliveries_by_key.get(&(sub.clone(), id.clone())).map(|l| l.iter().any(|&i| m.deliveries[i].recv_seq < st.seq)).unwrap_or(false)
+                })
+                .map(|(p, _)| p.msg_id.as_deref().unwrap())
+                .collect();
+            if undelivered.len() as u64 > st.backlog {
+                out.push(v(
+                    "C01.conservation",
+                    "vanished_at_audit",
+                    format!("{}: {} message(s) published after it was established were never delivered on it (e.g. {}), yet its backlog at the quiescent audit (seq {}) holds only {}", sub, undelivered.len(), undelivered[0], st.seq, st.backlog),
+                ));
+                break;
             }
         }
     }
